@@ -654,4 +654,65 @@ def r_c11(p):
     return {"violates": bool(probs), "vector": vec, "problems": probs[:5]}
 
 
-HANDLERS = {"c08": r_c08, "c10": r_c10, "c11": r_c11, "c15": r_c15, "c12": r_c12, "c12_raw": r_c12_raw, "c18": r_c18, "parse_step": r_parse_step, "parse_pre": r_parse_pre, "mandatory": r_mandatory, "parse_comm": r_parse_comm, "relational": r_relational, "c09": r_c09, "macrovector4": r_macrovector4, "c07_single": r_c07_single, "c07_pair": r_c07_pair, "c07_foreign": r_c07_foreign}
+def r_c17(p):
+    import os
+    import subprocess
+    import sys
+
+    import cvss
+
+    argv = p["argv"]
+    vec = argv[argv.index("-v") + 1] if "-v" in argv else None
+    sel = [k for k in ("-2", "-3", "-4") if k in argv]
+    version = {"-2": 2, "-3": 3.0, "-4": 4.0}[sel[0]] if sel else 3.1
+    interactive = {2: "AV:N/AC:L/Au:N/C:P/I:P/A:P", 3.0: "CVSS:3.0/AV:N/AC:L/PR:N/UI:N/S:U/C:H/I:H/A:H", 3.1: "CVSS:3.1/AV:N/AC:L/PR:N/UI:N/S:U/C:H/I:H/A:H", 4.0: "CVSS:4.0/AV:N/AC:L/AT:N/PR:N/UI:N/VC:H/VI:H/VA:H/SC:N/SI:N/SA:N"}
+    stdin = ""
+    eof = False
+    if vec is None:
+        if p.get("interactive_outcome") == "vector":
+            fields = interactive[version].split("/")
+            if version != 2:
+                fields = fields[1:]
+            stdin = "".join(f.split(":")[1] + "\n" for f in fields) + "\n" * 40
+            vec = interactive[version]
+        else:
+            eof = True
+    env = dict(os.environ)
+    env["PYTHONPATH"] = os.environ.get("CVSS_REPO", "/repo")
+    pr = subprocess.run([sys.executable, "-m", "cvss.cvss_calculator"] + argv, input=stdin, capture_output=True, text=True, timeout=60, env=env, cwd="/")
+    probs = []
+    if pr.returncode != 0:
+        probs.append("exit status %d" % pr.returncode)
+    if "Traceback" in pr.stderr:
+        probs.append("traceback: %s" % pr.stderr.strip().splitlines()[-1])
+    if not eof:
+        cls = {2: cvss.CVSS2, 3.0: cvss.CVSS3, 3.1: cvss.CVSS3, 4.0: cvss.CVSS4}[version]
+        try:
+            o = cls(vec)
+            names = ["Base Score", "Temporal Score", "Environmental Score"]
+            want = ["CVSS%d" % int(version)]
+            sev = o.severities() if version >= 3.0 else None
+            for i, s in enumerate(o.scores()):
+                head = names[i] + ":" + " " * (24 - len(names[i]) - 2)
+                want.append(head + ("%s (%s)" % (s, sev[i]) if version >= 3.0 else "%s" % (s,)))
+            want.append("Cleaned vector:        " + o.clean_vector())
+            want.append("Red Hat vector:        " + o.rh_vector())
+            if "-j" in argv:
+                import json
+
+                want.append("CVSS vector in JSON:")
+                want += json.dumps(o.as_json(sort=True, minimal=True), indent=2).splitlines()
+        except cvss.CVSSError as e:
+            want = [str(e)]
+        got = pr.stdout.splitlines()
+        if got[-len(want):] != want:
+            probs.append("stdout ends with %r, the library API prescribes %r" % (got[-len(want):][:4], want[:4]))
+        elif "-v" in argv and got != want:
+            probs.append("extra output before the prescribed lines: %r" % (got[:2],))
+    res = {"violates": bool(probs), "argv": argv, "problems": probs[:3]}
+    if probs and vec == "" and "-v" in argv:
+        res["finding_key"] = "cli.empty-vector-goes-interactive"
+    return res
+
+
+HANDLERS = {"c17": r_c17, "c08": r_c08, "c10": r_c10, "c11": r_c11, "c15": r_c15, "c12": r_c12, "c12_raw": r_c12_raw, "c18": r_c18, "parse_step": r_parse_step, "parse_pre": r_parse_pre, "mandatory": r_mandatory, "parse_comm": r_parse_comm, "relational": r_relational, "c09": r_c09, "macrovector4": r_macrovector4, "c07_single": r_c07_single, "c07_pair": r_c07_pair, "c07_foreign": r_c07_foreign}
